@@ -29,7 +29,8 @@ EXPLANATION = (
     "counts used to average the dual in the standard-form reversal are aligned with the list of overlapped rows."
     " (R8) psd_completion completes, for each pattern, the z block of original cone number pattern.orig_index; (R9) data updates are refused for every decomposed problem, compact or standard (C08.R1 re-run)."
     " (R10) C17.R8 re-run (Kruskal on intersection weights); (R11) compact reversal: the s and z statements of each block copy address identical positions."
-    " (R12) consecutive vertex numbers follow snode_post; psd_complete gathers with the ordering and scatters with its inverse.")
+    " (R12) consecutive vertex numbers follow snode_post; psd_complete gathers with the ordering and scatters with its inverse."
+    " (R13) compact augmentation of an undecomposed cone shifts the indices of b and the row indices of A by the same offset.")
 ASSUMPTIONS = ['rustc MIR construction and trait resolution are correct',
                'the sdp code is analysed by type-checking only (cargo check with empty blas-src/lapack-src); it is never linked or run']
 
@@ -607,6 +608,43 @@ def completion_numbering(rep, F, tag):
     R.guard(body)
 
 
+def cone_rows_shift(rep, F, tag):
+    """Compact augmentation, cones that are not decomposed: the cone's rows move from the original range to the running row pointer.  The row
+    indices of A *and* the indices of the sparse right-hand side b must be shifted by the same offset row_ptr - row_range.start - if b is
+    copied unshifted, every cone after a decomposed PSD cone gets its right-hand side on the wrong rows."""
+    R = rep.rule('C18.R13', 'compact augmentation of an undecomposed cone: the indices of b and the row indices of A are shifted by the same offset row_ptr - row_range.start')
+
+    def body():
+        fs = [x for x in F.find(name='add_entries_with_cone') if 'augment_compact' in x.file]
+        if len(fs) != 1:
+            raise AnchorError('add_entries_with_cone matched %d functions' % len(fs))
+        f = fs[0]
+        nz = lambda t: t.replace('withoverflow', '').replace(').0', ')')
+        OFF = 'sub(arg9, arg7.start)'
+        got = {}
+        for val, ret, ev, tr in Walker(f, cut_loops=True, local_stores=True).leaves():
+            for e in ev:
+                t, v = None, None
+                if e[0] == 'store':
+                    t, v = nz(str(e[1])), nz(str(e[2]))
+                elif e[0] == 'call' and e[1] in ('copy_from_slice', 'clone_from_slice', 'copy_from'):
+                    a = split_args(nz(str(e[2])))
+                    t, v = a[0], 'COPY(%s)' % a[1]
+                if t is None:
+                    continue
+                if t.startswith(('arg1[', 'index_mut(arg1')):
+                    got.setdefault('A', set()).add(v)
+                elif t.startswith(('arg2[', 'index_mut(arg2')):
+                    got.setdefault('b', set()).add(v)
+        for which, src in (('A', 'arg5.rowval'), ('b', 'arg6.nzind')):
+            vs = got.get(which, set())
+            ok = len(vs) == 1 and re.fullmatch(r'unwrap\(checked_add_signed\(index\(%s, .*\), %s\)\)|add\(index\(%s, .*\), .*\)' % (re.escape(src), re.escape(OFF), re.escape(src)), list(vs)[0]) is not None
+            R.check(ok, 'shifted|%s%s' % (which, tag),
+                    'the new %s indices are %s: each must be the original index shifted by row_ptr - row_range.start' % ('row' if which == 'A' else 'right-hand-side', sorted(x[:110] for x in vs)), f.loc())
+
+    R.guard(body)
+
+
 def run(ctx, rep, tier):
     stage_rules(ctx, rep, 'C18.R1')
     for cfg in (CONFIGS_THOROUGH if tier == 'thorough' else CONFIGS):
@@ -621,6 +659,7 @@ def run(ctx, rep, tier):
         completion_target(rep, F, tag)
         reversal_index_agreement(rep, F, tag)
         completion_numbering(rep, F, tag)
+        cone_rows_shift(rep, F, tag)
         # the decomposed problem is equivalent only if the merged cliques still form a clique tree (C17.R8 re-run)
         from . import c17, c04
         c17.tree_from_graph(c04._Ren(rep, 'C17.R8', 'C18.R10'), F, tag)
